@@ -39,7 +39,7 @@ func (c05) Gen(seed uint64, run int, tier string) *Plan {
 	p.Knobs["pivot"] = r.Intn(2)
 	p.Policy = simrt.Policy{Name: "atomic"}
 	if r.Intn(5) == 0 {
-		p.Policy = simrt.Policy{Name: "random", P: 0.02}
+		p.Policy = simrt.Policy{Name: "random", P: 0.02, RMWP: 0.3}
 	}
 	n := 8 + r.Intn(25)
 	for i := 0; i < n; i++ {
@@ -49,6 +49,10 @@ func (c05) Gen(seed uint64, run int, tier string) *Plan {
 			p.Actions = append(p.Actions, Action{Kind: "task", B: d, D: r.Intn(500), A: r.Intn(4)})
 		case x < 40:
 			p.Actions = append(p.Actions, Action{Kind: "checkin", B: d})
+		case x < 50 && p.Policy.Name != "atomic":
+			// an operator issues a task to the agent at the moment the final callback of another of
+			// its tasks is processed (issue and retire both rewrite the agent's list of outstanding ids)
+			p.Actions = append(p.Actions, Action{Kind: "race", B: d, D: r.Intn(1 << 30)})
 		default:
 			p.Actions = append(p.Actions, Action{Kind: "callback", B: d, C: r.Intn(len(world.Callbacks)), A: r.Intn(ridClasses), D: r.Intn(1 << 30)})
 		}
@@ -157,6 +161,30 @@ func (c05) Exec(p *Plan, dir string) *Result {
 			w.Sim.Settle()
 			ag.issued = append(ag.issued, rid)
 			res.FP("task")
+		case "race":
+			o := outstanding(ag, true, false)
+			if len(o) == 0 || ag.parent != nil || len(ag.d.Children) > 0 {
+				continue
+			}
+			rid := o[0]
+			// a final callback that changes nothing but the list: "sleep" answers are final
+			var pb world.PB
+			pb.Int32(uint32(a.D % 1000)).Int32(1)
+			taskN++
+			nrid := uint32(0x0d000000 + taskN)
+			call := w.Send(world.AgentReq{Port: ag.d.Port, URI: ag.d.URI, Headers: ag.d.Hdrs, Peer: ag.d.Peer, Body: ag.d.Frame([]world.Pkg{{Cmd: world.CmdSleep, RID: rid, Body: pb.B}})})
+			w.Sim.RunSteps(uint64(w.Sim.SchedRand().Intn(150)))
+			wit.Task(ag.d.NameID(), fmt.Sprintf("%08x", nrid), world.CmdSleep, "sleep", map[string]any{"Arguments": "5;1"})
+			w.Sim.Settle()
+			w.Absorb(ag.d, call)
+			for ; ag.seen < len(ag.d.Tasks); ag.seen++ {
+				ag.handed[ag.d.Tasks[ag.seen].RID] = true
+			}
+			ag.issued = append(ag.issued, nrid)
+			ag.completed[rid] = true
+			wit.Pump()
+			res.Probe("issue-racing-retire")
+			res.FP("race")
 		case "checkin":
 			n := checkin(ag)
 			res.FP("checkin", n > 0, ag.parent != nil)
